@@ -133,6 +133,11 @@ def discharge(
             st, secs = "sat", time.time() - t0
         else:
             st, _, secs, _ = solve(base, None, timeout_s=timeout_s, tactics=tactics)
+            if st == "unknown":
+                # satisfiability by partial concretisation: with the non-auxiliary variables fixed to rationals the
+                # rest (auxiliary roots, Ackermann variables) is easy; a model of the restriction is a model of the domain
+                st = "sat" if _twin_by_concretisation(ctx, base) else st
+                secs = time.time() - t0
         out.append(
             Result(
                 name="vacuity-twin",
@@ -204,6 +209,68 @@ def discharge(
                     res.replay = {"reproduced": False, "error": f"{type(exc).__name__}: {exc}"}
         out.append(res)
     return out
+
+
+def _twin_by_concretisation(ctx: Ctx, base: list, samples: int = 300, budget_s: float = 60.0) -> bool:
+    import random
+
+    rng = random.Random(7)
+    names = [n for n, meta in ctx.var_meta.items() if not meta.get("aux") and not meta.get("derived")]
+    if not names:
+        return False
+    t_end = time.time() + budget_s
+    # first: values of the base variables from a model of the small constraints (bounds, thresholds), which z3 finds at once
+    from .core import _dag_size, _term_vars
+
+    aux_names = {n for n, meta in ctx.var_meta.items() if meta.get("aux") or meta.get("derived")}
+    small = [a for a in base if _dag_size(a, 60) < 60 and not (_term_vars(a) & aux_names)]
+    sm = z3.Solver()
+    sm.set("timeout", 5000)
+    sm.add(*small)
+    for _ in range(6):
+        if str(sm.check()) != "sat" or time.time() > t_end:
+            break
+        model = sm.model()
+        pairs = []
+        for n in names:
+            val = model.eval(ctx.vars[n], model_completion=True)
+            if not z3.is_rational_value(val):
+                pairs = None
+                break
+            pairs.append((ctx.vars[n], val))
+        if pairs:
+            rest = [g for g in (z3.simplify(z3.substitute(a, *pairs)) for a in base) if not z3.is_true(g)]
+            if not any(z3.is_false(g) for g in rest):
+                st, _, _, _ = solve(rest, None, timeout_s=5.0, tactics=("qfnra-nlsat", None))
+                if st == "sat":
+                    return True
+            sm.add(z3.Or(*[v != val for v, val in pairs[:3]]))  # another point
+        else:
+            break
+    for k in range(samples):
+        if time.time() > t_end:
+            return False
+        pairs = []
+        for n in names:
+            v = ctx.vars[n]
+            den = rng.choice([1, 2, 3, 5])
+            scale = rng.choice([1, 1, 4, 20])
+            lo, hi = (1, 6 * den) if ctx.is_known_positive(v) else (-4 * den, 6 * den)
+            pairs.append((v, z3.Q(rng.randint(lo, hi) * scale, den)))
+        rest, dead = [], False
+        for a in base:
+            g = z3.simplify(z3.substitute(a, *pairs))
+            if z3.is_false(g):
+                dead = True
+                break
+            if not z3.is_true(g):
+                rest.append(g)
+        if dead:
+            continue
+        st, _, _, _ = solve(rest, None, timeout_s=3.0, tactics=("qfnra-nlsat", None))
+        if st == "sat":
+            return True
+    return False
 
 
 def hunt(ctx: Ctx, base: list, negated_goal, *, rounds: int = 24, seed: int = 0, timeout_s: float = 4.0):
